@@ -229,6 +229,25 @@ class C08Mixin(object):
             same = all(src[i.isotope] is i for i in got)
         return {"nums": nums, "same": same, "increasing": nums == sorted(set(nums))}
 
+    def ev_define_elements(self, tbl, prefill):
+        """core.define_elements(table, namespace): the documented way to export a table's atoms as
+        variables.  The namespace may already hold the names of another table (a module that did
+        `from periodictable import *` before exporting its own table)."""
+        t = self.table(tbl)
+        ns = {}
+        if prefill is not None:
+            self.core.define_elements(self.table(prefill), ns)
+        names = self.core.define_elements(t, ns)
+        wrong = []
+        for el in t:
+            for k in (el.symbol, el.name):
+                if ns.get(k) is not el:
+                    wrong.append(k)
+        for k, a in (("D", t.D), ("T", t.T), ("deuterium", t.D), ("tritium", t.T)):
+            if ns.get(k) is not a:
+                wrong.append(k)
+        return {"names": len(names), "wrong": len(wrong), "first": wrong[:4]}
+
     def ev_add_isotope(self, tbl, Z, A):
         el = self.table(tbl)[Z]
         iso = el.add_isotope(A)
